@@ -1,4 +1,4 @@
 from harness.corecheck import make
 MODULE = make("C04", ["CircusProofs/Props/C04.lean"],
               ["CircusProofs/Core/Pres.lean", "CircusProofs/Core/KStep.lean", "CircusProofs/Core/Generic.lean",
-               "CircusProofs/Core/SlotFree.lean", "CircusProofs/Core/PidInv.lean"])
+               "CircusProofs/Core/SlotFree.lean", "CircusProofs/Core/PidInv.lean", "CircusProofs/Core/StoppedEmpty.lean"])
